@@ -1,13 +1,405 @@
 /-
-  Property C14 — PLACEHOLDER while the full theorem file (lean/stmts/C14.lean.txt) is being proved.
+  Property C14 — the gas service holds exactly what was paid in minus what its collector paid out.
+  Statements are FIXED: prove them exactly as stated (helper lemmas go above them or in Cgp/Proofs/C14.lean).
 -/
 import Cgp.GasService
 namespace Cgp.Props.C14
 open Cgp Cgp.Xdr Cgp.Sac Cgp.GasService
 
-theorem rejected_moves_nothing (H : Bytes → Bytes) (st : State) (op : Op) (e : Err) (h : (step H st op).2 = .error e) :
+theorem transfer_some {b b' : Bank} {token src dst : Addr} {amount : Int} {au : Bool}
+    (h : b.transfer token src dst amount au = some b') :
+    b.isToken token = true ∧ au = true ∧ 0 ≤ amount ∧ amount ≤ b.bal token src ∧
+    ∀ t x, b'.bal t x = b.bal t x + (if t = token ∧ x = dst then amount else 0)
+        - (if t = token ∧ x = src then amount else 0) := by
+  unfold Bank.transfer at h
+  split at h; · cases h
+  split at h; · cases h
+  split at h; · cases h
+  split at h; · cases h
+  extract_lets b1 at h
+  split at h; · cases h
+  cases h
+  have hb1 : ∀ t x, b1.bal t x = if t = token ∧ x = src then b.bal token src - amount else b.bal t x :=
+    fun _ _ => rfl
+  refine ⟨by simp_all, by simp_all, by omega, by omega, ?_⟩
+  intro t x
+  simp only [hb1]
+  by_cases h1 : t = token <;> by_cases h2 : x = dst <;> by_cases h3 : x = src <;> by_cases h4 : dst = src <;>
+    simp [h1, h2, h3, h4] <;> (try subst_vars) <;> (try simp_all) <;> (try omega)
+
+theorem mint_some {b b' : Bank} {token dst : Addr} {amount : Int}
+    (h : b.mint token dst amount = some b') :
+    0 ≤ amount ∧ ∀ t x, b'.bal t x = b.bal t x + (if t = token ∧ x = dst then amount else 0) := by
+  unfold Bank.mint at h
+  split at h; · cases h
+  split at h; · cases h
+  split at h; · cases h
+  cases h
+  refine ⟨by omega, ?_⟩
+  intro t x
+  simp only
+  split
+  · next h1 => obtain ⟨rfl, rfl⟩ := h1; rfl
+  · omega
+
+theorem payGas_inv {H : Bytes → Bytes} {st st' : State} {auths sender chain dest payload spender token amount metadata evs}
+    (h : payGas H st auths sender chain dest payload spender token amount metadata = .ok (st', evs)) :
+    spender ∈ auths ∧ 0 < amount ∧ evs = [evGasPaid H sender chain dest payload spender token amount metadata] ∧
+    ∃ b, st.bank.transfer token spender st.self amount true = some b ∧ st' = { st with bank := b } := by
+  unfold payGas at h
+  split at h; · cases h
+  split at h; · cases h
+  split at h; · cases h
+  next b hb =>
+  cases h
+  exact ⟨by simp_all, by omega, rfl, b, hb, rfl⟩
+
+theorem addGas_inv {st st' : State} {auths sender msgId spender token amount evs}
+    (h : addGas st auths sender msgId spender token amount = .ok (st', evs)) :
+    spender ∈ auths ∧ 0 < amount ∧ evs = [evGasAdded sender msgId spender token amount] ∧
+    ∃ b, st.bank.transfer token spender st.self amount true = some b ∧ st' = { st with bank := b } := by
+  unfold addGas at h
+  split at h; · cases h
+  split at h; · cases h
+  split at h; · cases h
+  next b hb =>
+  cases h
+  exact ⟨by simp_all, by omega, rfl, b, hb, rfl⟩
+
+theorem collectFees_inv {st st' : State} {auths receiver token amount evs}
+    (h : collectFees st auths receiver token amount = .ok (st', evs)) :
+    st.collector ∈ auths ∧ 0 < amount ∧ evs = [evCollected st.collector token amount] ∧
+    ∃ b, st.bank.transfer token st.self receiver amount true = some b ∧ st' = { st with bank := b } := by
+  unfold collectFees at h
+  split at h; · cases h
+  split at h; · cases h
+  split at h; · cases h
+  split at h; · cases h
+  split at h; · cases h
+  next b hb =>
+  cases h
+  exact ⟨by simp_all, by omega, rfl, b, hb, rfl⟩
+
+theorem refund_inv {st st' : State} {auths msgId receiver token amount evs}
+    (h : refund st auths msgId receiver token amount = .ok (st', evs)) :
+    st.collector ∈ auths ∧ evs = [evRefunded msgId receiver token amount] ∧
+    ∃ b, st.bank.transfer token st.self receiver amount true = some b ∧ st' = { st with bank := b } := by
+  unfold refund at h
+  split at h; · cases h
+  split at h; · cases h
+  next b hb =>
+  cases h
+  exact ⟨by simp_all, rfl, b, hb, rfl⟩
+
+theorem transferOwnership_inv {st st' : State} {auths new evs}
+    (h : transferOwnership st auths new = .ok (st', evs)) : st' = { st with owner := new } := by
+  unfold transferOwnership at h
+  split at h; · cases h
+  cases h; rfl
+
+theorem userTransfer_inv {H : Bytes → Bytes} {st st' : State} {t s d a au evs}
+    (h : apply H st (.userTransfer t s d a au) = .ok (st', evs)) :
+    s ≠ st.self ∧ d ≠ st.self ∧ ∃ b, st.bank.transfer t s d a au = some b ∧ st' = { st with bank := b } := by
+  simp only [apply] at h
+  split at h; · cases h
+  split at h; · cases h
+  next b hb =>
+  cases h
+  exact ⟨by simp_all, by simp_all, b, hb, rfl⟩
+
+theorem adminMint_inv {H : Bytes → Bytes} {st st' : State} {t d a evs}
+    (h : apply H st (.adminMint t d a) = .ok (st', evs)) :
+    d ≠ st.self ∧ ∃ b, st.bank.mint t d a = some b ∧ st' = { st with bank := b } := by
+  simp only [apply] at h
+  split at h; · cases h
+  split at h; · cases h
+  next b hb =>
+  cases h
+  exact ⟨by simp_all, b, hb, rfl⟩
+
+theorem step_ok {H : Bytes → Bytes} {st : State} {op : Op} {st' evs} (h : apply H st op = .ok (st', evs)) :
+    step H st op = (st', .ok evs) := by
+  simp only [step, h]
+
+theorem step_err {H : Bytes → Bytes} {st : State} {op : Op} {e} (h : apply H st op = .error e) :
+    step H st op = (st, .error e) := by
+  simp only [step, h]
+
+variable (H : Bytes → Bytes)
+
+/-- signed movement of `token` into the service caused by a SUCCESSFUL operation -/
+def flow (token : Addr) : Op → Int
+  | .payGas _ _ _ _ _ _ t a _ => if t = token then a else 0
+  | .addGas _ _ _ _ t a => if t = token then a else 0
+  | .collectFees _ _ t a => if t = token then -a else 0
+  | .refund _ _ _ t a => if t = token then -a else 0
+  | _ => 0
+
+/-- the counterparty of every movement is somebody else than the service itself -/
+def External (self : Addr) : Op → Prop
+  | .payGas _ _ _ _ _ sp _ _ _ => sp ≠ self
+  | .addGas _ _ _ sp _ _ => sp ≠ self
+  | .collectFees _ r _ _ => r ≠ self
+  | .refund _ _ r _ _ => r ≠ self
+  | _ => True
+
+/-- payments and top-ups received minus fees collected and refunds issued, over a history (successful operations only) -/
+def netFlow (st : State) (token : Addr) : List Op → Int
+  | [] => 0
+  | op :: rest =>
+    (match (step H st op).2 with | .ok _ => flow token op | .error _ => 0) + netFlow (step H st op).1 token rest
+
+def BankNonNeg (b : Bank) : Prop := ∀ t h, 0 ≤ b.bal t h
+
+theorem self_fixed (st : State) (op : Op) :
+    (step H st op).1.self = st.self ∧ (step H st op).1.collector = st.collector := by
+  cases h : apply H st op with
+  | error e => rw [step_err h]; exact ⟨rfl, rfl⟩
+  | ok p =>
+    obtain ⟨st', evs⟩ := p
+    rw [step_ok h]
+    cases op with
+    | payGas => obtain ⟨_, _, _, b, _, rfl⟩ := payGas_inv h; exact ⟨rfl, rfl⟩
+    | addGas => obtain ⟨_, _, _, b, _, rfl⟩ := addGas_inv h; exact ⟨rfl, rfl⟩
+    | collectFees => obtain ⟨_, _, _, b, _, rfl⟩ := collectFees_inv h; exact ⟨rfl, rfl⟩
+    | refund => obtain ⟨_, _, b, _, rfl⟩ := refund_inv h; exact ⟨rfl, rfl⟩
+    | transferOwnership => rw [transferOwnership_inv h]; exact ⟨rfl, rfl⟩
+    | userTransfer => obtain ⟨_, _, b, _, rfl⟩ := userTransfer_inv h; exact ⟨rfl, rfl⟩
+    | adminMint => obtain ⟨_, b, _, rfl⟩ := adminMint_inv h; exact ⟨rfl, rfl⟩
+
+theorem service_balance_step (st : State) (op : Op) (token : Addr) (hext : External st.self op) :
+    (step H st op).1.bank.bal token st.self =
+      st.bank.bal token st.self + (match (step H st op).2 with | .ok _ => flow token op | .error _ => 0) := by
+  cases h : apply H st op with
+  | error e => rw [step_err h]; simp
+  | ok p =>
+    obtain ⟨st', evs⟩ := p
+    rw [step_ok h]
+    cases op with
+    | payGas au s c d pl sp t a m =>
+      obtain ⟨_, _, _, b, hb, rfl⟩ := payGas_inv h
+      obtain ⟨_, _, _, _, hbal⟩ := transfer_some hb
+      simp only [External] at hext
+      simp only [flow, hbal]
+      by_cases ht : t = token
+      · subst ht; simp [Ne.symm hext]
+      · simp [ht, Ne.symm ht]
+    | addGas au s i sp t a =>
+      obtain ⟨_, _, _, b, hb, rfl⟩ := addGas_inv h
+      obtain ⟨_, _, _, _, hbal⟩ := transfer_some hb
+      simp only [External] at hext
+      simp only [flow, hbal]
+      by_cases ht : t = token
+      · subst ht; simp [Ne.symm hext]
+      · simp [ht, Ne.symm ht]
+    | collectFees au r t a =>
+      obtain ⟨_, _, _, b, hb, rfl⟩ := collectFees_inv h
+      obtain ⟨_, _, _, _, hbal⟩ := transfer_some hb
+      simp only [External] at hext
+      simp only [flow, hbal]
+      by_cases ht : t = token
+      · subst ht; simp [Ne.symm hext]; omega
+      · simp [ht, Ne.symm ht]
+    | refund au i r t a =>
+      obtain ⟨_, _, b, hb, rfl⟩ := refund_inv h
+      obtain ⟨_, _, _, _, hbal⟩ := transfer_some hb
+      simp only [External] at hext
+      simp only [flow, hbal]
+      by_cases ht : t = token
+      · subst ht; simp [Ne.symm hext]; omega
+      · simp [ht, Ne.symm ht]
+    | transferOwnership => rw [transferOwnership_inv h]; simp [flow]
+    | userTransfer t s d a au =>
+      obtain ⟨h1, h2, b, hb, rfl⟩ := userTransfer_inv h
+      obtain ⟨_, _, _, _, hbal⟩ := transfer_some hb
+      simp [flow, hbal, Ne.symm h1, Ne.symm h2]
+    | adminMint t d a =>
+      obtain ⟨h1, b, hb, rfl⟩ := adminMint_inv h
+      obtain ⟨_, hbal⟩ := mint_some hb
+      simp [flow, hbal, Ne.symm h1]
+
+/-- **balance equation over every history**, for every token -/
+theorem service_balance_run (st : State) (ops : List Op) (token : Addr) (hext : ∀ op ∈ ops, External st.self op) :
+    (run H st ops).bank.bal token st.self = st.bank.bal token st.self + netFlow H st token ops := by
+  induction ops generalizing st with
+  | nil => simp [run, netFlow]
+  | cons op rest ih =>
+    have hs := (self_fixed H st op).1
+    have h1 := service_balance_step H st op token (hext op (by simp))
+    have h2 := ih (step H st op).1 (by rw [hs]; intro o ho; exact hext o (by simp [ho]))
+    rw [hs] at h2
+    simp only [run, netFlow]
+    rw [h2, h1]; omega
+
+/-- a payment requires a positive amount, the spender's authorisation, and moves exactly that amount from the spender -/
+theorem payment_exact_and_positive (st st' : State) (auths : List Addr) (sender : Addr) (chain dest payload : Bytes)
+    (spender token : Addr) (amount : Int) (metadata : Bytes) (evs : List Event)
+    (h : payGas H st auths sender chain dest payload spender token amount metadata = .ok (st', evs))
+    (hext : spender ≠ st.self) :
+    0 < amount ∧ spender ∈ auths ∧ amount ≤ st.bank.bal token spender ∧
+    st'.bank.bal token spender = st.bank.bal token spender - amount ∧
+    st'.bank.bal token st.self = st.bank.bal token st.self + amount ∧
+    (∀ t h, ¬ (t = token ∧ (h = spender ∨ h = st.self)) → st'.bank.bal t h = st.bank.bal t h) ∧
+    evs = [evGasPaid H sender chain dest payload spender token amount metadata] := by
+  obtain ⟨h1, h2, h3, b, hb, rfl⟩ := payGas_inv h
+  obtain ⟨_, _, _, h4, hbal⟩ := transfer_some hb
+  refine ⟨h2, h1, h4, ?_, ?_, ?_, h3⟩
+  · simp [hbal, hext]
+  · simp [hbal, Ne.symm hext]
+  · intro t x hn
+    simp only [hbal]
+    by_cases ht : t = token
+    · subst ht
+      have : ¬ x = spender := fun e => hn ⟨rfl, Or.inl e⟩
+      have : ¬ x = st.self := fun e => hn ⟨rfl, Or.inr e⟩
+      simp [*]
+    · simp [ht]
+
+theorem topup_exact_and_positive (st st' : State) (auths : List Addr) (sender : Addr) (msgId : Bytes)
+    (spender token : Addr) (amount : Int) (evs : List Event)
+    (h : addGas st auths sender msgId spender token amount = .ok (st', evs)) (hext : spender ≠ st.self) :
+    0 < amount ∧ spender ∈ auths ∧
+    st'.bank.bal token spender = st.bank.bal token spender - amount ∧
+    st'.bank.bal token st.self = st.bank.bal token st.self + amount ∧
+    evs = [evGasAdded sender msgId spender token amount] := by
+  obtain ⟨h1, h2, h3, b, hb, rfl⟩ := addGas_inv h
+  obtain ⟨_, _, _, h4, hbal⟩ := transfer_some hb
+  refine ⟨h2, h1, ?_, ?_, h3⟩
+  · simp [hbal, hext]
+  · simp [hbal, Ne.symm hext]
+
+/-- fee collection: collector only, positive amount, never more than the service holds, exact movement, one event -/
+theorem collect_exact (st st' : State) (auths : List Addr) (receiver token : Addr) (amount : Int) (evs : List Event)
+    (h : collectFees st auths receiver token amount = .ok (st', evs)) (hext : receiver ≠ st.self) :
+    st.collector ∈ auths ∧ 0 < amount ∧ amount ≤ st.bank.bal token st.self ∧
+    st'.bank.bal token st.self = st.bank.bal token st.self - amount ∧
+    st'.bank.bal token receiver = st.bank.bal token receiver + amount ∧
+    evs = [evCollected st.collector token amount] := by
+  obtain ⟨h1, h2, h3, b, hb, rfl⟩ := collectFees_inv h
+  obtain ⟨_, _, _, h4, hbal⟩ := transfer_some hb
+  refine ⟨h1, h2, h4, ?_, ?_, h3⟩
+  · simp [hbal, Ne.symm hext]
+  · simp [hbal, hext]
+
+theorem refund_exact (st st' : State) (auths : List Addr) (msgId : Bytes) (receiver token : Addr) (amount : Int)
+    (evs : List Event)
+    (h : refund st auths msgId receiver token amount = .ok (st', evs)) (hext : receiver ≠ st.self) :
+    st.collector ∈ auths ∧ 0 ≤ amount ∧ amount ≤ st.bank.bal token st.self ∧
+    st'.bank.bal token st.self = st.bank.bal token st.self - amount ∧
+    st'.bank.bal token receiver = st.bank.bal token receiver + amount ∧
+    evs = [evRefunded msgId receiver token amount] := by
+  obtain ⟨h1, h3, b, hb, rfl⟩ := refund_inv h
+  obtain ⟨_, _, h2, h4, hbal⟩ := transfer_some hb
+  refine ⟨h1, h2, h4, ?_, ?_, h3⟩
+  · simp [hbal, Ne.symm hext]
+  · simp [hbal, hext]
+
+/-- only the gas collector can move funds out: if any operation lowers the service's balance of any token,
+    it is a collect or refund call that the collector authorised -/
+theorem only_collector_pays_out (st : State) (op : Op) (token : Addr)
+    (h : (step H st op).1.bank.bal token st.self < st.bank.bal token st.self) :
+    st.collector ∈ (match op with
+      | .collectFees au _ _ _ => au
+      | .refund au _ _ _ _ => au
+      | _ => []) := by
+  cases h' : apply H st op with
+  | error e => rw [step_err h'] at h; simp at h
+  | ok p =>
+    obtain ⟨st', evs⟩ := p
+    rw [step_ok h'] at h
+    cases op with
+    | payGas au s c d pl sp t a m =>
+      exfalso
+      obtain ⟨_, _, _, b, hb, rfl⟩ := payGas_inv h'
+      obtain ⟨_, _, _, _, hbal⟩ := transfer_some hb
+      simp only [hbal] at h
+      by_cases ht : token = t
+      · simp only [ht, true_and, if_true] at h
+        split at h <;> omega
+      · simp [ht] at h
+    | addGas au s i sp t a =>
+      exfalso
+      obtain ⟨_, _, _, b, hb, rfl⟩ := addGas_inv h'
+      obtain ⟨_, _, _, _, hbal⟩ := transfer_some hb
+      simp only [hbal] at h
+      by_cases ht : token = t
+      · simp only [ht, true_and, if_true] at h
+        split at h <;> omega
+      · simp [ht] at h
+    | collectFees au r t a => exact (collectFees_inv h').1
+    | refund au i r t a => exact (refund_inv h').1
+    | transferOwnership => rw [transferOwnership_inv h'] at h; simp at h
+    | userTransfer t s d a au =>
+      exfalso
+      obtain ⟨h1, h2, b, hb, rfl⟩ := userTransfer_inv h'
+      obtain ⟨_, _, _, _, hbal⟩ := transfer_some hb
+      simp [hbal, Ne.symm h1, Ne.symm h2] at h
+    | adminMint t d a =>
+      exfalso
+      obtain ⟨h1, b, hb, rfl⟩ := adminMint_inv h'
+      obtain ⟨_, hbal⟩ := mint_some hb
+      simp [hbal, Ne.symm h1] at h
+
+/-- never overdrawn: no balance (of the service or anyone) ever becomes negative, over every history -/
+theorem nonneg_step (st : State) (op : Op) (h : BankNonNeg st.bank) : BankNonNeg (step H st op).1.bank := by
+  have htr : ∀ {b' : Bank} {tok src dst : Addr} {amt : Int} {au : Bool},
+      st.bank.transfer tok src dst amt au = some b' → BankNonNeg b' := by
+    intro b' tok src dst amt au hb t x
+    obtain ⟨_, _, h0, h1, hbal⟩ := transfer_some hb
+    have := h t x
+    rw [hbal]
+    by_cases hs : t = tok ∧ x = src
+    · obtain ⟨rfl, rfl⟩ := hs
+      simp only [true_and, if_true]
+      split <;> omega
+    · simp only [hs, if_false]
+      split <;> omega
+  cases h' : apply H st op with
+  | error e => rw [step_err h']; exact h
+  | ok p =>
+    obtain ⟨st', evs⟩ := p
+    rw [step_ok h']
+    cases op with
+    | payGas => obtain ⟨_, _, _, b, hb, rfl⟩ := payGas_inv h'; exact htr hb
+    | addGas => obtain ⟨_, _, _, b, hb, rfl⟩ := addGas_inv h'; exact htr hb
+    | collectFees => obtain ⟨_, _, _, b, hb, rfl⟩ := collectFees_inv h'; exact htr hb
+    | refund => obtain ⟨_, _, b, hb, rfl⟩ := refund_inv h'; exact htr hb
+    | transferOwnership => rw [transferOwnership_inv h']; exact h
+    | userTransfer => obtain ⟨_, _, b, hb, rfl⟩ := userTransfer_inv h'; exact htr hb
+    | adminMint =>
+      obtain ⟨_, b, hb, rfl⟩ := adminMint_inv h'
+      obtain ⟨h0, hbal⟩ := mint_some hb
+      intro t x
+      have := h t x
+      simp only [hbal]
+      split <;> omega
+
+theorem nonneg_run (st : State) (ops : List Op) (h : BankNonNeg st.bank) : BankNonNeg (run H st ops).bank := by
+  induction ops generalizing st with
+  | nil => exact h
+  | cons op rest ih => exact ih _ (nonneg_step H st op h)
+
+theorem rejected_moves_nothing (st : State) (op : Op) (e : Err) (h : (step H st op).2 = .error e) :
     (step H st op).1 = st := by
-  simp only [step] at h ⊢
-  split <;> simp_all
+  cases h' : apply H st op with
+  | error e => rw [step_err h']
+  | ok p =>
+    obtain ⟨st', evs⟩ := p
+    rw [step_ok h'] at h; cases h
+
+/-- non-positive payments are rejected -/
+theorem nonpositive_payment_rejected (st : State) (auths : List Addr) (sender : Addr) (chain dest payload : Bytes)
+    (spender token : Addr) (amount : Int) (metadata : Bytes) (h : amount ≤ 0) :
+    (∃ e, payGas H st auths sender chain dest payload spender token amount metadata = .error e) ∧
+    (∃ e, addGas st auths sender chain spender token amount = .error e) := by
+  constructor
+  · unfold payGas
+    split
+    · exact ⟨_, rfl⟩
+    · exact ⟨_, rfl⟩
+  · unfold addGas
+    split
+    · exact ⟨_, rfl⟩
+    · exact ⟨_, rfl⟩
 
 end Cgp.Props.C14
